@@ -173,7 +173,7 @@ impl Prop for C02 {
         (tier == Tier::Thorough).then(|| "RK decoding: all 2^32 RK words x 3 style classes through the rk_num hook".to_string())
     }
     fn mandatory(&self, _t: Tier) -> Vec<String> {
-        ["rk_sweep", "rec:num:NUMBER", "rec:num:RK:RkInt", "rec:num:RK:RkIntDiv100", "rec:num:RK:RkFloat", "rec:num:RK:RkFloatDiv100", "rec:MULRK", "rec:str:LABELSST", "rec:str:LABEL", "rec:bool", "rec:error", "rec:blank", "rec:formula:num", "rec:formula:string", "rec:formula:bool", "rec:formula:error", "shrfmla_between_formula_and_string", "sst_index>=65536", "negative_rk_int", "mulrk_col0", "mulrk_col255", "dims:0", "dims:1", "dims:2"]
+        ["rk_sweep", "rec:num:NUMBER", "rec:num:RK:RkInt", "rec:num:RK:RkIntDiv100", "rec:num:RK:RkFloat", "rec:num:RK:RkFloatDiv100", "rec:MULRK", "rec:str:LABELSST", "rec:str:LABEL", "rec:bool", "rec:error", "rec:blank", "rec:formula:num", "rec:formula:string", "rec:formula:bool", "rec:formula:error", "shrfmla_between_formula_and_string", "sst_index>=65536", "dense_rectangle", "cell_order:ColMajor", "cell_order:Reversed", "cell_order:Random", "negative_rk_int", "mulrk_col0", "mulrk_col255", "dims:0", "dims:1", "dims:2"]
             .iter().map(|s| s.to_string()).collect()
     }
     fn run_unit(&self, ctx: &Ctx, unit: u64, out: &mut UnitResult) {
@@ -185,6 +185,29 @@ impl Prop for C02 {
         for i in 0..n {
             let mut rng = Rng::derive(ctx.seed, "c02", unit * 10_000 + i);
             let mut book = gen::gen_book(&mut rng, &gen::XLS_LIMITS, &gen::GenOpts { empty_strings: false, max_sheets: 3, max_cells: ctx.tier.pick(40, 120), formulas: true, styles: true });
+            let dense = i % 5 == 4;
+            if dense {
+                // a sheet that is exactly one completely filled rectangle (its records will be
+                // written in row-major, column-major, reversed and random order)
+                book.sheets.truncate(1);
+                let sh = &mut book.sheets[0];
+                sh.cells.clear();
+                sh.merges.clear();
+                let (r0, c0) = (rng.range_u32(0, 40), rng.range_u32(0, 20));
+                let (h, w) = (2 + rng.range_u32(0, 4), 2 + rng.range_u32(0, 4));
+                for r in 0..h {
+                    for c in 0..w {
+                        let k = (r0 + r) * 1000 + c0 + c;
+                        let val = match rng.below(4) {
+                            0 => Val::Str(format!("s{}", k)),
+                            1 => Val::Bool(k % 2 == 0),
+                            _ => Val::Num(k as f64 + 0.5),
+                        };
+                        sh.cells.insert((r0 + r, c0 + c), MCell::v(val));
+                    }
+                }
+                out.feat("dense_rectangle");
+            }
             // make numbers RK-friendly and add dense numeric rows (MULRK) incl. columns 0 and 255
             let mut serial = 1000 + rng.below(5000);
             for sh in book.sheets.iter_mut() {
@@ -200,7 +223,7 @@ impl Prop for C02 {
                     }
                 }
                 let span = sh.cells.keys().map(|p| p.0).max().unwrap_or(0) - sh.cells.keys().map(|p| p.0).min().unwrap_or(0);
-                if rng.chance(1, 2) && span < 300 {
+                if !dense && rng.chance(1, 2) && span < 300 {
                     // (the range is dense: keep the bounding box small when adding a full-width row)
                     let r = sh.cells.keys().map(|p| p.0).max().unwrap_or(0).min(65_000) + 1;
                     let (c0, c1) = *rng.pick(&[(0u32, 5u32), (250, 255), (0, 255), (3, 9)]);
@@ -222,6 +245,10 @@ impl Prop for C02 {
             }
             for k in 0..ctx.tier.pick(3, 6) {
                 let mut bc = if k == 0 { BiffChoices::default() } else { BiffChoices::random(&mut rng) };
+                if dense {
+                    use crate::enc::biff8::CellOrder;
+                    bc.cell_order = [CellOrder::RowMajor, CellOrder::ColMajor, CellOrder::Reversed, CellOrder::Random][k as usize % 4];
+                }
                 let n_str = book.sheets.iter().flat_map(|s| s.cells.values()).filter(|c| matches!(c.val, Val::Str(_)) && c.formula.is_none()).count();
                 if unit == SWEEP_UNITS && k == 1 && i < 6 && n_str >= 3 {
                     // a shared string table of more than 65536 items: the LABELSST indices of this
